@@ -632,6 +632,8 @@ def _order_ops(sm, E, vs):
         "asexp_fwd": lambda e, p: shown_list([sm.Partial(e, v).as_expression() for v in vs]),
         "asexp_rev": lambda e, p: (lambda d: shown_list([d.component(v).as_expression() for v in vs]))(sm.Differential(e, compute_early=True)),
         "norm": lambda e, p: Shown(e._normalize()),
+        "barenum": lambda e, p: [rt.outcome(lambda: e.at(2)).get("msg"), rt.outcome(lambda: sm.Derivative(e)).get("msg"),
+                                 rt.outcome(lambda: sm.Derivative(e, compute_early=True)).get("msg")],
         "deriv": lambda e, p: [sm.Derivative(e).at(p), sm.Derivative(e, compute_early=True).at(p), sm.Partial(e, vs[0]).at(p)],
         # (a Point prints its coordinates in the order they were written - that is its constructor call, see C13 - so it is not printed here)
         "repr": lambda e, p: Shown([e, sm.Differential(e), sm.Partial(e, vs[0]), sm.Differential(e, compute_early=True)]),
@@ -693,6 +695,10 @@ def exec_reduce(spec, env):
     def get_input():
         if what == "tree":
             return e0
+        if what == "composed":
+            # an expression handed out by an earlier simplification, used as an operand of a new expression
+            n = e0._normalize()
+            return {"Reciprocal": E.Reciprocal, "Negation": E.Negation, "Sine": E.Sine}[spec.get("wrap", "Reciprocal")](n)
         v = spec.get("var", "x")
         return e0._synthetic_partial(v)          # the unsimplified symbolic derivative (input of the simplifier inside as_expression())
     oi = rt.outcome(lambda: box.setdefault("e", get_input()) and 0)
@@ -738,6 +744,18 @@ def exec_reduce(spec, env):
             n2 = n1._normalize()
         return [list(cap.records), repr(n1), repr(n2)]
     outs.append(rt.outcome(full))
+
+    # the same input OBJECT is reduced a second time (its nodes now carry flags from the first walk): it must terminate again, in the same form
+    def second_walk():
+        cur = e
+        k = 0
+        seen = [repr(cur)]
+        while not cur._is_fully_reduced and k < limit:
+            cur = cur._take_reduction_step()
+            k += 1
+            seen.append(repr(cur))
+        return [k, bool(cur._is_fully_reduced), repr(cur) == repr(final), len(set(seen)) == len([s2 for i2, s2 in enumerate(seen) if i2 == 0 or s2 != seen[i2 - 1]])]
+    outs.append(rt.outcome(second_walk))
     return outs
 
 
